@@ -1,7 +1,7 @@
 """C20 - calls are pure: arguments stay untouched and results ignore the call history.
 
 Tie of the generated effect table (coq/gen/Gen_c20.v, theorems in coq/props/C20.v) to the real code:
- * ~115 call templates over the public functions of nn, stats, distance, metric, clustering, io, util,
+ * ~150 base call templates over the public functions of nn, stats, distance, metric, clustering, io, util,
    entropy, plotting with representative arguments (lists, arrays, Series, tables, option dicts);
  * every call is bracketed by deep snapshots of its arguments, of __defaults__/__kwdefaults__ of every
    pyrepseq callable, of all module-level and class-level data and of NumPy's generator state; whatever
@@ -10,7 +10,15 @@ Tie of the generated effect table (coq/gen/Gen_c20.v, theorems in coq/props/C20.
  * each template runs ALONE in a fresh interpreter (one subprocess per template), and inside histories
    (fresh interpreter per history, length 2..12, repetitions, raising calls); the canonical result of a
    call in a history must equal the result of the same call alone; randomised calls run under np.random.seed.
-This file is also the worker: `python c20.py worker` reads {"history": [[template, seed-or-null], ...]}."""
+ * a SHARED-DATA family (`shared_templates`): three overlapping sequence collections (and one table) are fed to every
+   neighbour-search / distance / statistics entry point over a grid of the OTHER arguments (which collection is the
+   reference, which the query or none, max_edits, distance option, container type).  Sessions walk this grid so that a
+   call is preceded by calls that used the same sequences with other arguments - per-sequence state kept by an earlier
+   call (a memoised helper whose result was modified in place, a reused index) then shows up as a difference from the
+   fresh-process result.
+This file is also the worker: `python c20.py worker` reads {"history": [[template, seed-or-null], ...]} (one fresh
+interpreter running one history) or {"fork": [history, ...]} (an interpreter that has imported pyrepseq but made no call
+forks one pristine child per history; used for the single-call references and for shrinking)."""
 import json, math, os, re, subprocess, sys, time
 
 HERE = os.path.dirname(os.path.abspath(__file__))
@@ -115,6 +123,10 @@ def exc_token(e):
 SEQS = ['CASSLGQAYEQYF', 'CASSLGQSYEQYF', 'CASSLGAYEQYF', 'CASSPGQAYEQYF', 'CATSLGQAYEQYF', 'CASSLGQAYEQF',
         'CAWSVGQGYEQYF', 'CASRLGQAYEQYF', 'CASSLGQAYEQYF', 'CASSQETQYF']
 SEQS2 = ['CASSLGQAYEQYF', 'CASSLGQAYEQYW', 'CASSQETQYF', 'CAISEGQAYEQYF']
+# a third collection: mostly 1-2 edit neighbours of members of SEQS / SEQS2, few exact members (a DIFFERENT reference)
+SEQS3 = ['CASSLGQAYEQYW', 'CASSLGQYEQYF', 'CASSLGQAAYEQYF', 'CASSQETQYF', 'CASSQETQYFF', 'CAISEGQAYEQF', 'CASRLGQAYEQF',
+         'CAWSVGQGYEQYF', 'CASSPGQSYEQYF']
+SHARED = dict(a=SEQS, b=SEQS2, c=SEQS3)
 ALPHA = ['CAVRDSNYQLIW', 'CAVRDSNYQLIW', 'CAVSDSNYQLIW', 'CAVRDGNYQLIW', 'CALSEAGTALIF', 'CAVRDSNYQLIW',
          'CAASGGSYIPTF', 'CAVRDSNYQLIF', 'CAVRDSNYQLIW', 'CAMREGYSTLTF']
 TRBV = ['TRBV5-1*01', 'TRBV5-1*01', 'TRBV7-2*01', 'TRBV5-1*01', 'TRBV19*01', 'TRBV5-1*01', 'TRBV30*01',
@@ -309,6 +321,8 @@ def templates():
         T('isvalidcdr3', ['io.isvalidcdr3'], lambda: (lambda xs: [prs.isvalidcdr3(x) for x in xs], [['CASSF', 'CASS', 'AASF', 3.5, None]], {})),
         T('multimerge_suffix', ['io.multimerge'], lambda: (prs.multimerge, [[tcr_df()[['CDR3B', 'clone_count']].drop_duplicates('CDR3B'), tcr_df()[['CDR3B', 'group']].drop_duplicates('CDR3B')], 'CDR3B'], dict(suffixes=['x', 'y']))),
         T('multimerge_index', ['io.multimerge'], lambda: (prs.multimerge, [[tcr_df()[['clone_count']], tcr_df()[['group']].iloc[2:], tcr_df()[['donor']]], 'index'], dict(how='inner'))),
+        T('multimerge_index_suffix', ['io.multimerge'], lambda: (prs.multimerge, [[tcr_df()[['clone_count', 'group']], tcr_df()[['clone_count', 'donor']].iloc[1:]], 'index'], dict(suffixes=['s1', 's2'], how='outer'))),
+        T('multimerge_column_nosuffix', ['io.multimerge'], lambda: (prs.multimerge, [[tcr_df()[['CDR3B', 'clone_count']].drop_duplicates('CDR3B'), tcr_df()[['CDR3B', 'group']].drop_duplicates('CDR3B')], 'CDR3B'], {})),
         T('seqs_to_regex', ['util.seqs_to_regex'], lambda: (util.seqs_to_regex, [['CASF', 'CATF', 'CASW']], dict(align=False))),
         T('seqs_to_consensus', ['util.seqs_to_consensus'], lambda: (util.seqs_to_consensus, [['CASF', 'CATF', 'CASW']], dict(align=False))),
         T('align_seqs_raises', ['util.align_seqs'], lambda: (util.align_seqs, [['CASF', 'CATFF']], {})),
@@ -343,10 +357,89 @@ def templates():
     for t in L:
         if t['name'].startswith('clustermap_split'):
             t['fig'] = True
+    L += shared_templates()
     out = {}
     for t in L:
         assert t['name'] not in out, t['name']
         out[t['name']] = t
+    return out
+
+
+def shared_templates():
+    """The shared-data family.  name = sh_<function>_<reference>_<query or 0>_k<max_edits>_<option>; `coords` holds the
+    grid coordinates (two templates are grid neighbours when they differ in exactly one coordinate)."""
+    import numpy as np
+    import pandas as pd
+    import pyrepseq as prs
+    import pyrepseq.nn as nn
+    rconv = [list, lambda s: pd.Series(s, index=np.arange(len(s)) + 3), tuple, list]
+    qconv = [list, np.array, tuple, lambda s: pd.Series(s)]
+    dist = dict(l=None, h='hamming')
+
+    def searcher(fn, r, q, k, d):
+        cd = dist.get(d)
+        i = 'abc'.index(r) + (0 if q is None else 1 + 'abc'.index(q)) + k + len(fn)       # container types rotate over the grid
+        R = lambda: rconv[i % 4](SHARED[r])
+        Q = lambda: qconv[(i // 2) % 4](SHARED[q])
+        if fn in ('symdel', 'nn'):
+            f = prs.symdel if fn == 'symdel' else prs.nearest_neighbor
+            ent = ['nn.symdel'] if fn == 'symdel' else ['nn.nearest_neighbor']
+            if q is None:
+                return ent, lambda: (f, [R()], dict(max_edits=k, custom_distance=cd))
+            return ent, lambda: (f, [R()], dict(max_edits=k, custom_distance=cd, seqs2=Q()))
+        if fn == 'symdeldb':
+            ent = ['nn.SymdelDB.__init__', 'nn.SymdelDB.lookup']
+            if q is None:
+                return ent, lambda: (lambda s: nn.SymdelDB(s, k).lookup(s, custom_distance=cd), [R()], {})
+            return ent, lambda: (lambda s, t: nn.SymdelDB(s, k).lookup(t, custom_distance=cd), [R(), Q()], {})
+        if fn == 'lookupdb':
+            ent = ['nn.LookupDB.__init__', 'nn.LookupDB.lookup']
+            if q is None:
+                return ent, lambda: (lambda s: nn.LookupDB(s).lookup(s, max_edits=k, pdist_mode=True, custom_distance=cd), [R()], {})
+            return ent, lambda: (lambda s, t: nn.LookupDB(s).lookup(t, max_edits=k, custom_distance=cd), [R(), Q()], {})
+        if fn == 'kdtree':
+            if d == 'p':                # worker processes: whatever they hold must come from THIS call
+                return ['nn.kdtree'], lambda: (prs.kdtree, [R()], dict(max_edits=k, n_cpu=2))
+            return ['nn.kdtree'], lambda: (prs.kdtree, [R()], dict(max_edits=k, custom_distance=cd))
+        if fn == 'hash':
+            return ['nn.hash_based'], lambda: (prs.hash_based, [list(SHARED[r]) if i % 2 else np.array(SHARED[r])], dict(max_edits=k, custom_distance=cd))
+        if fn == 'nbrs':
+            nb = prs.levenshtein_neighbors if d == 'l' else prs.hamming_neighbors
+            return ['distance.calculate_neighbor_numbers'], lambda: (prs.calculate_neighbor_numbers, [list(SHARED[q or r])], dict(reference=set(SHARED[r]), neighborhood=nb))
+        if fn == 'dist':
+            kw = {} if d == 'l' else dict(metric=lev3, dtype=np.uint16)
+            if q is None:
+                return ['distance.pdist'], lambda: (prs.pdist, [R()], dict(kw))
+            return ['distance.cdist'], lambda: (prs.cdist, [R(), Q()], dict(kw))
+        if fn == 'pc':
+            return ['stats.pc'], lambda: (prs.pc, [R()] + ([] if q is None else [Q()]), {})
+        if fn == 'pcdelta':
+            kw = dict(bins=[0, 1, 2, 3, 30]) if d == 'l' else dict(bins=0, normalize=False)
+            return ['distance.pcDelta'], lambda: (prs.pcDelta, [R()] + ([] if q is None else [Q()]), dict(kw))
+        raise KeyError(fn)
+
+    out = []
+    two = dict(symdel=(1, 2), nn=(1, 2), symdeldb=(1, 2), lookupdb=(1,), nbrs=(1,), dist=(1,), pc=(1,), pcdelta=(1,))
+    one = dict(kdtree=(1, 2), hash=(1,))
+    for fn, ks in list(two.items()) + list(one.items()):
+        for r in 'abc':
+            for q in ([None] + [x for x in 'abc' if x != r] if fn in two else [None]):
+                for k in ks:
+                    for d in ('l',) if fn == 'pc' else ('lhp' if fn == 'kdtree' else 'lh'):
+                        ent, make = searcher(fn, r, q, k, d)
+                        t = T('sh_%s_%s_%s_k%d_%s' % (fn, r, q or '0', k, d), ent, make)
+                        t['coords'] = (fn, r, q, k, d)
+                        out.append(t)
+    # the same table, other chain / radius / second table
+    for ch in ('alpha', 'beta', 'both'):
+        for k in (1, 2):
+            for sub in (None, 'even'):
+                def make(ch=ch, k=k, sub=sub):
+                    df = tcr_df() if sub is None else tcr_df().iloc[::2].reset_index(drop=True)
+                    return (prs.nearest_neighbor_tcrdist, [df], dict(chain=ch, max_edits=k, max_tcrdist=40 * k))
+                t = T('sh_tcrdist_%s_%s_k%d_l' % (ch, sub or '0', k), ['nn.nearest_neighbor_tcrdist'], make)
+                t['coords'] = ('tcrdist', ch, sub, k, 'l')
+                out.append(t)
     return out
 
 
@@ -441,10 +534,43 @@ def worker_main():
     import pyrepseq.nn as nn
     nn.pwseqdist = pwseqdist            # optional dependency absent: vendored stand-in (see standin/pwseqdist)
     ts = templates()
+    if 'fork' in spec:
+        # this interpreter has imported everything and made NO pyrepseq call: every history runs in its own forked child,
+        # i.e. in a process whose state is that of a freshly started interpreter (validated against real fresh
+        # interpreters by cross_validate below)
+        sys.stdout.write('\n@@C20@@' + json.dumps([forked(ts, h) for h in spec['fork']]))
+        return
     out = []
     for name, seed in spec['history']:
         out.append(run_call(ts[name], seed))
     sys.stdout.write('\n@@C20@@' + json.dumps(out))
+
+
+def forked(ts, history):
+    import signal
+    r, w = os.pipe()
+    pid = os.fork()
+    if pid == 0:
+        code = 0
+        try:
+            os.close(r)
+            signal.alarm(420)
+            data = json.dumps([run_call(ts[name], seed) for name, seed in history])
+        except BaseException as e:           # reported to the parent, which falls back to a real fresh interpreter
+            data, code = json.dumps(dict(failed='%s: %s' % (type(e).__name__, str(e)[:300]))), 1
+        try:
+            with os.fdopen(w, 'w') as fh:
+                fh.write(data)
+        finally:
+            os._exit(code)
+    os.close(w)
+    with os.fdopen(r) as fh:
+        data = fh.read()
+    os.waitpid(pid, 0)
+    try:
+        return json.loads(data)
+    except ValueError:
+        return dict(failed='child of the fork server died: %r' % data[-200:])
 
 
 def spawn(history, timeout=600):
@@ -460,12 +586,48 @@ def spawn(history, timeout=600):
     return json.loads(p.stdout.split('@@C20@@')[-1])
 
 
-def spawn_many(histories, nproc=14):
+NPROC = max(4, min(16, (os.cpu_count() or 8)))
+
+
+def spawn_many(histories, nproc=NPROC):
     if not histories:
         return []
     from concurrent.futures import ThreadPoolExecutor
     with ThreadPoolExecutor(nproc) as ex:
         return list(ex.map(spawn, histories))
+
+
+def fork_server(histories, timeout=900):
+    env = dict(os.environ)
+    env.setdefault('MPLBACKEND', 'Agg')
+    env['PYTHONHASHSEED'] = '0'
+    env.update(OMP_NUM_THREADS='1', OPENBLAS_NUM_THREADS='1', MKL_NUM_THREADS='1', NUMEXPR_NUM_THREADS='1')
+    p = subprocess.run(['timeout', str(timeout), sys.executable, '-W', 'ignore', os.path.abspath(__file__), 'worker'],
+                       input=json.dumps(dict(fork=histories)), capture_output=True, text=True, env=env)
+    if '@@C20@@' not in p.stdout:
+        return [dict(failed='fork server: rc=%s %s' % (p.returncode, (p.stderr or p.stdout)[-300:]))] * len(histories)
+    return json.loads(p.stdout.split('@@C20@@')[-1])
+
+
+def fresh_many(histories, nproc=NPROC):
+    """Every history in its own pristine process (children of a few fork servers; a real fresh interpreter where a
+    child failed).  Same result format as spawn_many."""
+    if not histories:
+        return []
+    from concurrent.futures import ThreadPoolExecutor
+    k = max(1, min(nproc, len(histories)))
+    # dealt round-robin to k fork servers
+    slots = [list(range(i, len(histories), k)) for i in range(k)]
+    with ThreadPoolExecutor(k) as ex:
+        parts = list(ex.map(lambda idx: fork_server([histories[i] for i in idx]), slots))
+    out = [None] * len(histories)
+    for idx, recs in zip(slots, parts):
+        for i, r in zip(idx, recs):
+            out[i] = r
+    redo = [i for i, r in enumerate(out) if not isinstance(r, list)]
+    for i, recs in zip(redo, spawn_many([histories[i] for i in redo], nproc)):
+        out[i] = recs
+    return out
 
 
 # ------------------------------------------------------------------ the check
@@ -545,9 +707,27 @@ def judge_effects(ctx, tab, ts, rec, history, pos):
             ctx.count('allowed_state_change:' + key)
 
 
+def grid_neighbours(ts, shared):
+    """shared-data templates that differ in exactly one grid coordinate (other function, other reference collection,
+    query given / not given / another one, other max_edits, other distance option) - the same DATA, other arguments"""
+    nb = {n: [] for n in shared}
+    for i, a in enumerate(shared):
+        ca = ts[a]['coords']
+        for b in shared[i + 1:]:
+            cb = ts[b]['coords']
+            if (ca[0] == 'tcrdist') != (cb[0] == 'tcrdist'):
+                continue
+            if sum(1 for x, y in zip(ca, cb) if x != y) == 1:
+                nb[a].append(b)
+                nb[b].append(a)
+    return nb
+
+
 def make_histories(ctx, ts, seeds):
     rng = ctx.rng
     names = sorted(ts)
+    shared = [n for n in names if 'coords' in ts[n]]
+    base = [n for n in names if 'coords' not in ts[n]]
     raising = [n for n in names if n.endswith('_raises')]
     H = []
     # every template immediately repeated, in shuffled chunks of six (length 12)
@@ -561,8 +741,8 @@ def make_histories(ctx, ts, seeds):
         fam.setdefault(ts[n]['entries'][-1], []).append(n)
     for e, ns in sorted(fam.items()):
         if len(ns) >= 2:
-            ns = ns[:6]
             rng.shuffle(ns)
+            ns = ns[:6]
             H.append(ns + ns[::-1])
     # random histories of length 2..12 with repetitions and raising calls
     for _ in range(24 if ctx.quick else 2000):
@@ -573,8 +753,10 @@ def make_histories(ctx, ts, seeds):
                 h.append(rng.choice(h))
             elif r < 0.40:
                 h.append(rng.choice(raising))
+            elif r < 0.85:
+                h.append(rng.choice(base))
             else:
-                h.append(rng.choice(names))
+                h.append(rng.choice(shared))
         H.append(h)
     H = [[[n, seeds.get(n)] for n in h] for h in H]
     # histories are concatenated into sessions, one fresh interpreter each (a session is itself a history)
@@ -583,13 +765,59 @@ def make_histories(ctx, ts, seeds):
     for i, h in enumerate(H):
         S[i % nsess] += h
     S = [x for x in S if x]
+    # ---- shared-data sessions: the same sequences / tables, other arguments
+    #  (a) whole-family orders: a random permutation of the family and its reverse put every ordered pair of shared
+    #      templates into one interpreter, earlier -> later (state that PERSISTS, e.g. a memo keyed by sequence);
+    #  (b) grid walks: consecutive calls differ in exactly one coordinate (state of the LAST call reused by the next:
+    #      same data with another radius / another reference / seqs2 given or not / another entry point).
+    nb = grid_neighbours(ts, shared)
+    nperm, nwalk, wlen = (2, 6, 180) if ctx.quick else (24, 120, 240)
+    for _ in range(nperm):
+        perm = shared[:]
+        rng.shuffle(perm)
+        for h in (perm, perm[::-1]):
+            H.append([[n, seeds.get(n)] for n in h])
+            S.append(H[-1])
+    todo = {(a, b) for a in shared for b in nb[a]}
+    for _ in range(nwalk):
+        cur = rng.choice(shared)
+        h = [cur]
+        while len(h) < wlen:
+            fresh_steps = [b for b in nb[cur] if (cur, b) in todo]
+            nxt = rng.choice(fresh_steps or nb[cur] or shared)          # prefer an adjacency not executed yet
+            todo.discard((cur, nxt))
+            h.append(nxt)
+            cur = nxt
+        H.append([[n, seeds.get(n)] for n in h])
+        S.append(H[-1])
+    ctx.extra['shared_data'] = dict(templates=len(shared), grid_adjacencies=sum(len(v) for v in nb.values()),
+                                    adjacencies_not_walked=len(todo), family_orders=2 * nperm, walks=nwalk)
     if not ctx.quick:
-        # exhaustive small domain: every ordered pair of templates executed back to back (a,b and b,a), one session per a
-        for a in names:
-            S.append([[n, seeds.get(n)] for b in names for n in (a, b)])
+        # exhaustive small domain: every ordered pair of (base) templates executed back to back (a,b and b,a), one session per a
+        for a in base:
+            S.append([[n, seeds.get(n)] for b in base for n in (a, b)])
         ctx.exhaustive = True
-        ctx.note('thorough tier: all %d ordered pairs of call templates were executed adjacently' % (len(names) ** 2))
+        ctx.note('thorough tier: all %d ordered pairs of the %d base call templates were executed adjacently; the %d shared-data '
+                 'templates in %d whole-family orders and %d grid walks (%d of %d one-coordinate adjacencies not executed)'
+                 % (len(base) ** 2, len(base), len(shared), 2 * nperm, nwalk, len(todo), sum(len(v) for v in nb.values())))
     return H, S
+
+
+def cross_validate(ctx, names, seeds, fresh):
+    """The single-call references come from children of a fork server.  A sample of them (all, in the thorough tier) is
+    recomputed in real fresh interpreters; any difference switches the whole run back to real fresh interpreters."""
+    pick = list(names) if not ctx.quick else ctx.rng.sample(list(names), min(len(names), NPROC - 2))
+    recs = spawn_many([[[n, seeds.get(n)]] for n in pick])
+    bad = [n for n, r in zip(pick, recs)
+           if any(r[0][k] != fresh[n][k] for k in ('result', 'arg_changes', 'world_changes'))]
+    ctx.extra['fork_reference_cross_validated'] = dict(templates=len(pick), different=bad)
+    if bad:
+        ctx.note('fork-server references differ from fresh interpreters for %s: all references recomputed in fresh interpreters' % bad)
+        rest = [n for n in names if n not in pick]
+        for n, r in zip(pick, recs):
+            fresh[n] = r[0]
+        for n, r in zip(rest, spawn_many([[[n, seeds.get(n)]] for n in rest])):
+            fresh[n] = r[0]
 
 
 def run(ctx):
@@ -649,11 +877,11 @@ def run(ctx):
     names = sorted(ts)
     seeds = {n: ctx.rng.randrange(2 ** 31) for n in names if ts[n]['random']}
     t0 = time.time()
-    fresh_recs = spawn_many([[[n, seeds.get(n)]] for n in names])
-    fresh = {}
-    for n, recs in zip(names, fresh_recs):
-        rec = recs[0]
-        fresh[n] = rec
+    fresh_recs = fresh_many([[[n, seeds.get(n)]] for n in names])
+    fresh = {n: recs[0] for n, recs in zip(names, fresh_recs)}
+    cross_validate(ctx, names, seeds, fresh)
+    for n in names:
+        rec = fresh[n]
         ctx.case(sample=dict(template=n, entries=ts[n]['entries'], alone=True, result=json.dumps(rec['result'])[:160]) if len(ctx.samples) < 3 else None)
         ctx.count('fresh:' + ('raises' if rec['result'][0] == 'exc' else 'returns'))
         if rec['result'][0] == 'exc' and not n.endswith('_raises'):
@@ -668,7 +896,8 @@ def run(ctx):
     H0, H = make_histories(ctx, ts, seeds)
     t0 = time.time()
     out = spawn_many(H)
-    ctx.extra['histories'] = dict(generated=len(H0), lengths='2..12', sessions=len(H), calls=sum(len(h) for h in H))
+    ctx.extra['histories'] = dict(generated=len(H0), lengths='2..12; shared-data family orders and grid walks %d..%d' % (
+        min([len(h) for h in H0 if len(h) > 12] or [0]), max(len(h) for h in H0)), sessions=len(H), calls=sum(len(h) for h in H))
     for h in H0:
         ctx.count('history_len=%d' % len(h))
     ctx.extra['history_wall_s'] = round(time.time() - t0, 1)
@@ -688,19 +917,27 @@ def run(ctx):
             if rec['result'] != fresh[n]['result']:
                 failing.append((h, pos, rec))
     seen = set()
+    failing.sort(key=lambda x: x[1])                  # short prefixes first
     for h, pos, rec in failing:
         n = rec['template']
-        if n in seen:
+        if ts[n]['entries'][-1] in seen:              # one shrunk report per callable
             continue
-        seen.add(n)
+        seen.add(ts[n]['entries'][-1])
         small, srec = shrink(h, pos, fresh)
+        if srec is None:        # still a failure of the property: the result is not a function of the call
+            ctx.note('template %s differed at position %d of a session but not when the same prefix was replayed in another '
+                     'fresh interpreter: the difference below is the one observed in the session' % (n, pos))
+            srec = rec
         kind = 'randomised (same NumPy seed)' if ts[n]['random'] else 'deterministic'
         ctx.violation('property', '%s call template %s (%s) returns something else after the history %s than alone in a fresh '
                       'interpreter: %s' % (kind, n, ts[n]['entries'][-1], [x[0] for x in small[:-1]],
                                            first_difference(srec['result'], fresh[n]['result'])),
                       dict(history=small, position=len(small) - 1, kind='result'), site='%s[history]' % ts[n]['entries'][-1])
-        if len(ctx.violations) > 12:
+        if len(ctx.violations) > 12 or len(seen) >= 6:
             break
+    if failing:
+        ctx.extra['calls_differing_from_fresh_reference'] = dict(
+            calls=len(failing), templates=sorted({r['template'] for _, _, r in failing})[:60])
     ctx.assumptions += [
         'the effect analysis is a conservative SYNTACTIC summary: library functions outside its lists neither mutate nor return their '
         'arguments, callables buried in containers are not followed, lazily evaluated results are evaluated before the call returns; '
@@ -723,19 +960,22 @@ def first_difference(a, b, path=''):
 
 
 def shrink(h, pos, fresh):
-    """Smallest history that still shows the difference: one predecessor, else the prefix."""
+    """Smallest history that still shows the difference: one predecessor, else two, else the prefix.  Candidates run in
+    pristine forked processes; what is reported has been confirmed in a real fresh interpreter."""
     target = h[pos]
+    ref = fresh[target[0]]['result']
     preds = []
     for x in reversed(h[:pos]):
         if x not in preds:
             preds.append(x)
-    preds = preds[:48]
-    outs = spawn_many([[x, target] for x in preds])
-    for x, recs in zip(preds, outs):
-        if recs[-1]['result'] != fresh[target[0]]['result']:
-            return [x, target], recs[-1]
-    recs = spawn(h[:pos + 1])
-    return h[:pos + 1], recs[-1]
+    cands = [[x, target] for x in preds[:400]]
+    cands += [[x, y, target] for i, x in enumerate(preds[:12]) for y in preds[:12] if x != y]
+    hits = [c for c, recs in zip(cands, fresh_many(cands)) if recs[-1]['result'] != ref]
+    for c in hits[:3] + [h[:pos + 1]]:
+        recs = spawn(c)
+        if recs[-1]['result'] != ref:
+            return c, recs[-1]
+    return h[:pos + 1], None
 
 
 def replay(ctx, obj):
